@@ -131,6 +131,20 @@ def handle (toks : List String) : Option String :=
             | .rejected => none
           pure (showChain ⟨r, match r with | .resp (.handled _) => id | _ => none⟩)
         | _, _ => none).getD "bad-request"
+  | ["c20.ctor", server, dh, tlsTok, bind, hdr] => some <| (do
+      let routes ← tableOf server
+      let d ← if dh == "1" then some true else if dh == "0" then some false else none
+      let t ← if tlsTok == "some" then some true else if tlsTok == "none" then some false else none
+      let pre ← if bind == "pre" then some true else if bind == "self" then some false else none
+      let f : Flavor := if server == "mpc" then .helper else .shard
+      let header ← parseLiveHeader server hdr
+      let o ← boot ⟨d, t⟩ pre
+      match o with
+      | .refuses => pure "no-start"
+      | .serves _ =>
+        let path := ["query", "0", "step", "a"]
+        let ask (c : Client Nat) : String := showLive (serveBooted f routes (some o) c path .post)
+        pure s!"plain={ask ⟨false, .none, header⟩} tls={ask ⟨true, .none, header⟩} cert={ask ⟨true, .peer 1, none⟩}").getD "bad-request"
   | ["c20.req", server, _group, m, target, ident, _body] => some <| (do
       let routes ← tableOf server
       let r : Req := { path := segments target, method := (← parseMethod m),
@@ -251,6 +265,46 @@ def oracle (toks : List String) (impl : String) : Option String :=
             (if impl == "401" || impl == "other:400" then "holds" else s!"fails {arm}: {group} route {target} answered {impl} without a valid identity header ({hdr})")
           else if impl == "401" then s!"fails {arm}: {target} refused although the header says {hdr}"
           else "holds"
+  | ["c20.ctor", server, dh, tlsTok, bind, hdr] => some <|
+      -- spec side, from the request tokens only: an identity header may count only if the caller of the
+      -- constructor wrote `disable_https: true`; HTTPS needs key material; a valid configuration must serve
+      let cfg := s!"ServerConfig(disable_https={if dh == "1" then "true" else "false"}, tls={tlsTok}) / {bind}-bound {server} server"
+      let ownPrefix := if server == "mpc" then "h=" else "s="
+      let ownHdr : Option String := if hdr.startsWith ownPrefix then some (hdr.drop 2).toString else none
+      let claims : Bool := match ownHdr with | some v => validIdentString server v | none => false
+      if impl == "no-start" then
+        (if dh == "0" && tlsTok == "none" then "holds"
+         else s!"fails {cfg}: a valid configuration refuses to start")
+      else
+        match impl.splitOn " " with
+        | [p, t, c] =>
+          let plain := (p.drop 6).toString
+          let tls := (t.drop 4).toString
+          let cert := (c.drop 5).toString
+          if !(p.startsWith "plain=" && t.startsWith "tls=" && c.startsWith "cert=") then s!"fails malformed response {impl}"
+          else if dh == "0" then
+            -- TLS was NOT explicitly disabled: nothing may be served to a caller without a verified certificate
+            if plain == "ok" then
+              s!"fails {cfg}: TLS was never explicitly disabled, yet the step route answered ok over plain HTTP to a caller that only sent the identity header {hdr}"
+            else if tls == "ok" then
+              s!"fails {cfg}: the step route answered ok over TLS to a caller without certificate (identity header {hdr})"
+            else if plain != "conn-err" then
+              s!"fails {cfg}: HTTPS was requested but the server speaks plain HTTP ({plain})"
+            else if tlsTok == "none" then
+              s!"fails {cfg}: HTTPS was requested without key material, yet a server is running ({impl})"
+            else if tls != "401" then s!"fails {cfg}: TLS caller without certificate got {tls} instead of 401"
+            else if cert != "ok" then s!"fails {cfg}: the certificate of peer 1 was answered {cert}"
+            else "holds"
+          else
+            -- TLS explicitly disabled (test-only mode): plain HTTP, the header of the server's flavor decides
+            if tls == "ok" || cert == "ok" then s!"fails {cfg}: TLS is disabled but a TLS client was served ({impl})"
+            else if claims then
+              (if plain == "ok" then "holds" else s!"fails {cfg}: header identity {hdr} ignored although TLS is explicitly disabled ({plain})")
+            else if ownHdr.isSome then
+              (if plain == "401" || plain == "other:400" then "holds" else s!"fails {cfg}: malformed identity header {hdr} accepted ({plain})")
+            else
+              (if plain == "401" then "holds" else s!"fails {cfg}: the step route answered {plain} without an identity header of its flavor ({hdr})")
+        | _ => s!"fails malformed response {impl}"
   | ["c20.req", server, group, _m, _target, ident, _body] => some <|
       let hasHelper := ident == "helper" || ident == "both"
       let hasShard := ident == "shard" || ident == "both"
